@@ -14,6 +14,11 @@
 // the concurrent round and after the sequential one every shared object is
 // compared with a private copy taken before (same place, same size, same units,
 // terminator included).
+// neighbours phase: every thread owns one odd-sized record of an array of records
+// that lie back to back in one arena (bytes, char16_t, char32_t), refills it in
+// place and works on it through the raw-pointer overloads while its neighbours do
+// the same with theirs; the threads print padded fields to sinks of their own,
+// each with its own fill character, and read shared const string_streams.
 #include "vrt.h"
 #include "vrt_st.h"
 #include "ref_unicode.h"
@@ -366,6 +371,278 @@ static void verify_shared(const Shared &sh, const char *when)
     }
 }
 
+// ---- neighbours: thread-private ranges that are adjacent inside one arena -------------------------------------------------
+// Every thread owns ONE record of an array of odd-sized records (75 bytes; 37 char16_t; 19 char32_t) that lie back to back in
+// one malloc'ed block per element type, so that most records start at an address that is not 8-byte aligned and every record's
+// first and last aligned word is shared with a neighbour's record.  A thread only ever passes pointers into its own record to
+// the library (raw-pointer overloads: conversions, searches with (pointer, length) needles, comparisons with const char*,
+// codecs, caller-buffer decoders writing INTO the record) and refills it in place, while the neighbours do the same with
+// theirs: a library access that touches a byte outside the range it was given - rounding the start down or the end up to a
+// whole word - is a data race with the neighbour's refill, although every single-threaded result is unchanged.  The same
+// programs also print / write through the stdio and iostream writers to sinks of their own, each thread with its own fill
+// character and padding runs of 2..200 characters, and read shared CONST string_streams (to_string and the other const
+// members).  Digests are compared with the same programs run alone afterwards.
+struct Lane {
+    char *rec; size_t n;              // bytes [rec, rec + n) of the byte arena
+    char16_t *rec16; size_t n16;
+    char32_t *rec32; size_t n32;
+    unsigned style;                   // which fill character its padded fields use
+};
+struct LaneOut {
+    uint64_t digest = 0xcbf29ce484222325ull;
+    uint64_t steps = 0, calls = 0, ranges_not_8_aligned = 0, refills_by_library = 0, printf_lines = 0, writef_lines = 0, pad_runs = 0, longest_pad = 0, files[3] = {0, 0, 0},
+             stream_reads = 0, boring_runs = 0, needles = 0, cstr_calls = 0, t0 = 0, t1 = 0;
+    std::string error;
+};
+struct SharedConst {
+    const ST::string_stream *ss[3];
+    S text[3];
+    const ST::string *hay;
+};
+
+static const char lane_fills[] = "0 *._#=-~+";      // style 0: zero padding ({08x}), 1: the default space ({>8}), then {_*>12} ...
+
+// "{08}" / "{>8}" / "{_*<12}" for a padding run of `run` characters around a value of `vlen` characters
+static S pad_spec(unsigned style, size_t run, size_t vlen, bool left, bool hexa)
+{
+    const unsigned w = static_cast<unsigned>(run + vlen);
+    if (style == 0) return sfmt("{0%u%s}", w, hexa ? "x" : "");
+    if (style == 1) return sfmt("{%c%u%s}", left ? '<' : '>', w, hexa ? "x" : "");
+    return sfmt("{_%c%c%u%s}", lane_fills[style], left ? '<' : '>', w, hexa ? "x" : "");
+}
+
+static void lane_program(uint64_t seed, size_t steps, const Lane &L, const SharedConst &sc, LaneOut &out)
+{
+    Rng r(seed);
+    uint64_t &d = out.digest;
+    out.t0 = now_ns();
+    S img(L.n, ' ');
+    std::u16string img16(L.n16, u' ');
+    std::u32string img32(L.n32, U' ');
+    std::vector<char> membuf(8192);
+    size_t boring = 0;           // > 0: inside a run of identical unremarkable steps; the step after the run is the remarkable one
+    bool after_boring = false;
+    try {
+        for (size_t step = 0; step < steps; ++step) {
+            ++out.steps;
+            unsigned kind = static_cast<unsigned>(r.below(12));
+            if (boring == 0 && !after_boring && r.chance(1, 500)) { boring = 64 + r.below(237); ++out.boring_runs; }
+            const bool dull = boring > 0, sharp = !dull && after_boring;
+            if (dull) { --boring; after_boring = boring == 0; kind = 0; }
+            else if (sharp) { after_boring = false; kind = 0; }
+            if (kind < 7) {
+                // ---- the byte record: new content, put there by a caller-buffer decoder or by memcpy, then read through raw pointers
+                const unsigned content = dull || sharp ? 0 : static_cast<unsigned>(r.below(3));
+                if (content == 0) {             // Latin-1: where the bytes >= 0x80 are is what the measuring passes care about
+                    const unsigned hb = dull ? 0 : sharp ? 1 : static_cast<unsigned>(r.below(6));
+                    for (size_t i = 0; i < L.n; ++i) img[i] = static_cast<char>(0x20 + r.below(0x5f));
+                    const size_t edge = 1 + r.below(7);
+                    switch (hb) {
+                    case 0: break;
+                    case 1: for (size_t i = L.n - edge; i < L.n; ++i) img[i] = static_cast<char>(0x80 + r.below(0x80)); break;
+                    case 2: for (size_t i = 0; i < edge; ++i) img[i] = static_cast<char>(0x80 + r.below(0x80)); break;
+                    case 3: for (size_t i = 0; i < L.n; ++i) if (r.chance(1, 4)) img[i] = static_cast<char>(0x80 + r.below(0x80)); break;
+                    case 4: for (size_t i = 0; i < L.n; ++i) img[i] = static_cast<char>(0x80 + r.below(0x80)); break;
+                    default: img[r.below(L.n)] = static_cast<char>(0x80 + r.below(0x80)); break;
+                    }
+                } else if (content == 1) {      // UTF-8 (one time in five with an ill-formed unit), padded with ASCII to the record size
+                    S t;
+                    while (t.size() < L.n) {
+                        const unsigned w = static_cast<unsigned>(r.below(8));
+                        S c;
+                        if (w < 4) c += static_cast<char>(0x21 + r.below(0x5e)); else if (w < 6) ref::enc_utf8(c, 0xA0 + r.below(0x700)); else if (w == 6) ref::enc_utf8(c, 0x800 + r.below(0xD000)); else ref::enc_utf8(c, 0x10000 + r.below(0x30000));
+                        if (t.size() + c.size() > L.n) { t += '.'; continue; }
+                        t += c;
+                    }
+                    img = t;
+                    if (r.chance(1, 5)) img[r.chance(1, 2) ? L.n - 1 - r.below(8) : r.below(L.n)] = static_cast<char>(r.chance(1, 2) ? 0xFF : 0x80 + r.below(0x40));
+                } else {                        // words; the record is a C string (NUL in its last byte)
+                    for (size_t i = 0; i < L.n; ++i) img[i] = r.chance(1, 6) ? ' ' : r.chance(1, 12) ? ',' : static_cast<char>('a' + r.below(8));
+                    static const char *const marks[] = {"Needle", "NEEDLE", "needle", "nEEDLE tail"};
+                    const char *mk = marks[r.below(4)];
+                    const size_t at = r.chance(1, 3) ? L.n - 1 - strlen(mk) : r.below(L.n - 1 - strlen(mk));
+                    memcpy(&img[at], mk, strlen(mk));
+                    img[L.n - 1] = '\0';
+                }
+                switch (dull ? 2 : r.below(5)) {
+                case 0: { ST::string hex = ST::hex_encode(img.data(), img.size()); mixv(d, static_cast<uint64_t>(ST::hex_decode(hex, L.rec, L.n))); ++out.refills_by_library; break; }
+                case 1: { ST::string b64 = ST::base64_encode(img.data(), img.size()); mixv(d, static_cast<uint64_t>(ST::base64_decode(b64, L.rec, L.n))); ++out.refills_by_library; break; }
+                case 2: memcpy(L.rec, img.data(), L.n); break;
+                case 3: {                       // in two pieces: the second decoder call starts in the middle of the record
+                    const size_t h = 1 + r.below(L.n - 1);
+                    ST::string a = ST::hex_encode(img.data(), h), b = ST::hex_encode(img.data() + h, L.n - h);
+                    mixv(d, static_cast<uint64_t>(ST::hex_decode(a, L.rec, h)) + 3 * static_cast<uint64_t>(ST::hex_decode(b, L.rec + h, L.n - h)));
+                    ++out.refills_by_library;
+                    break;
+                }
+                default: {                      // upper-case hex, decoded into exactly the space it needs
+                    ST::string hex = ST::hex_encode(img.data(), img.size()).to_upper();
+                    mixv(d, static_cast<uint64_t>(ST::hex_decode(hex, L.rec, L.n)));
+                    ++out.refills_by_library;
+                    break;
+                }
+                }
+                // the range handed to the library: the whole record (its first and last word are shared with the neighbours) or
+                // a part of it; a C string always ends with the record
+                size_t a = 0, b = 0;
+                if (!dull && !sharp && r.chance(2, 5)) { a = r.below(16); b = content == 2 ? 0 : r.below(16); }
+                const char *p = L.rec + a;
+                const size_t len = L.n - a - b;
+                if (reinterpret_cast<uintptr_t>(p) & 7) ++out.ranges_not_8_aligned;
+                const unsigned rot = dull || sharp ? 0u : static_cast<unsigned>(r.below(8));
+                if (content == 0) {
+                    for (unsigned q = 0; q < (dull ? 1u : 8u); ++q) {
+                        ++out.calls;
+                        switch ((q + rot) % 8) {
+                        case 0: mixs(d, ST::string::from_latin_1(p, len)); break;
+                        case 1: { auto x = ST::latin_1_to_utf8(p, len); mix(d, x.data(), x.size()); break; }
+                        case 2: { auto x = ST::latin_1_to_utf16(p, len); mix(d, x.data(), x.size() * 2); break; }
+                        case 3: { auto x = ST::latin_1_to_utf32(p, len); mix(d, x.data(), x.size() * 4); break; }
+                        case 4: mixs(d, ST::hex_encode(p, len)); break;
+                        case 5: mixs(d, ST::base64_encode(p, len)); break;
+                        case 6: { ST::char_buffer x(p, len); mix(d, x.data(), x.size()); ST::string_stream ss; ss.append(p, len); ss << 7; mixs(d, ss.to_string(false)); break; }
+                        default: { auto x = ST::latin_1_to_wchar(p, len); mix(d, x.data(), x.size() * sizeof(wchar_t)); mixs(d, ST::format_latin_1("{}", std::string_view(p, len))); break; }
+                        }
+                    }
+                } else if (content == 1) {
+                    for (unsigned q = 0; q < 8; ++q) {
+                        ++out.calls;
+                        switch ((q + rot) % 8) {
+                        case 0: { auto x = ST::utf8_to_utf16(p, len, ST::substitute_invalid); mix(d, x.data(), x.size() * 2); break; }
+                        case 1: { auto x = ST::utf8_to_utf32(p, len, ST::substitute_invalid); mix(d, x.data(), x.size() * 4); break; }
+                        case 2: { auto x = ST::utf8_to_latin_1(p, len, ST::substitute_invalid); mix(d, x.data(), x.size()); break; }
+                        case 3: { auto x = ST::utf8_to_wchar(p, len, ST::substitute_invalid); mix(d, x.data(), x.size() * sizeof(wchar_t)); break; }
+                        case 4: mixs(d, ST::string::from_utf8(p, len, ST::substitute_invalid)); break;
+                        case 5: { ST::string x(p, len, ST::substitute_invalid); mixs(d, x); x.set(p, len / 2, ST::substitute_invalid); mixs(d, x); break; }
+                        case 6: try { mixs(d, ST::string::from_utf8(p, len, ST::check_validity)); } catch (const ST::unicode_error &) { mixv(d, 81); } break;
+                        default: { ST::string x = ST::string::from_validated(p, len); mixv(d, ST::hash()(x)); try { mixs(d, ST::format("{>90}|{}", std::string_view(p, len), 5)); } catch (const ST::unicode_error &) { mixv(d, 84); } break; }
+                        }
+                    }
+                } else {
+                    // (pointer, length) needles out of the record, searched in a thread-local haystack that holds the record's text
+                    S ht;
+                    for (size_t k = r.below(40); k-- > 0;) ht += static_cast<char>('a' + r.below(8));
+                    ht.append(p, len - 1);
+                    for (size_t k = r.below(40); k-- > 0;) ht += static_cast<char>('a' + r.below(8));
+                    const ST::string hay = ST::string::from_validated(ht.data(), ht.size());
+                    const size_t na = r.below(len - 4), nl = std::min<size_t>(len - 1 - na, 4 + r.below(37));
+                    const char *np = p + na;
+                    ++out.needles;
+                    for (unsigned q = 0; q < 8; ++q) {
+                        ++out.calls;
+                        switch ((q + rot) % 8) {
+                        case 0: mixv(d, static_cast<uint64_t>(hay.find(np, nl)) + 3 * static_cast<uint64_t>(hay.find_last(np, nl)) + hay.contains(np, nl)); break;
+                        case 1: mixv(d, static_cast<uint64_t>(hay.find(np, nl, ST::case_insensitive)) + 3 * static_cast<uint64_t>(hay.find_last(np, nl, ST::case_insensitive)) + hay.contains(np, nl, ST::case_insensitive)); break;
+                        case 2: mixv(d, static_cast<uint64_t>(hay.find(r.below(hay.size()), np, nl)) + 3 * static_cast<uint64_t>(hay.find_last(r.below(hay.size() + 1), np, nl, ST::case_insensitive))); break;
+                        case 3: mixv(d, static_cast<uint64_t>(hay.find(p)) + 3 * static_cast<uint64_t>(hay.find_last(p, ST::case_insensitive)) + hay.contains(p) + 2 * sc.hay->contains(np, nl, ST::case_insensitive) + 4 * static_cast<uint64_t>(sc.hay->find(np, nl))); ++out.cstr_calls; break;
+                        case 4: mixv(d, static_cast<uint64_t>(hay.compare(p)) + 3 * static_cast<uint64_t>(hay.compare_i(p)) + 5 * static_cast<uint64_t>(hay.compare_n(p, 20)) + 7 * static_cast<uint64_t>(hay.compare_ni(p, 33)) + hay.starts_with(p) + 2 * hay.ends_with(p, ST::case_insensitive)
+                                             + 4 * (hay == p) + static_cast<uint64_t>(hay.substr(static_cast<ST_ssize_t>(hay.find(p) < 0 ? 0 : hay.find(p))).compare(p))); ++out.cstr_calls; break;
+                        case 5: { ST::string x(p); mixs(d, x); x = p + (len > 40 ? 30 : 0); mixs(d, x); x += p; mixs(d, x); mixs(d, hay + p); ++out.cstr_calls; break; }
+                        case 6: { ST::string_stream ss; ss << p << 1 << p + len / 2; mixs(d, ss.to_string()); mixs(d, ST::format("{}|{>80}|{<3}", p, p + len / 3, p + len - 2)); ++out.cstr_calls; break; }
+                        default: { ST::char_buffer cb(p, len - 1); mixv(d, static_cast<uint64_t>(cb.compare(p)) + 3 * static_cast<uint64_t>(cb.compare_n(p + 1, 9)) + static_cast<uint64_t>(ST::char_buffer::compare(p, len - 1, np, nl))); mixs(d, ST::hex_encode(np, nl)); ++out.cstr_calls; break; }
+                        }
+                    }
+                }
+            } else if (kind == 7) {
+                // ---- the char16_t record
+                for (size_t i = 0; i < L.n16; ++i) img16[i] = static_cast<char16_t>(r.chance(1, 2) ? 0x20 + r.below(0x5f) : 0xA0 + r.below(0x2000));
+                const unsigned mode = static_cast<unsigned>(r.below(4));
+                if (mode == 1) for (size_t i = 0; i < L.n16; ++i) img16[i] = static_cast<char16_t>(0x20 + r.below(0x5f));
+                if (mode >= 2) { const size_t at = r.chance(1, 2) ? L.n16 - 2 - r.below(3) : r.below(L.n16 - 1); img16[at] = static_cast<char16_t>(0xD800 + r.below(0x400)); img16[at + 1] = static_cast<char16_t>(0xDC00 + r.below(0x400)); }
+                if (mode == 3) img16[r.chance(1, 2) ? L.n16 - 1 : r.below(L.n16)] = static_cast<char16_t>(0xD800 + r.below(0x800));
+                memcpy(L.rec16, img16.data(), L.n16 * 2);
+                size_t a = 0, b = 0;
+                if (r.chance(2, 5)) { a = r.below(5); b = r.below(5); }
+                const char16_t *p = L.rec16 + a;
+                const size_t len = L.n16 - a - b;
+                if (reinterpret_cast<uintptr_t>(p) & 7) ++out.ranges_not_8_aligned;
+                out.calls += 5;
+                { auto x = ST::utf16_to_utf8(p, len, ST::substitute_invalid); mix(d, x.data(), x.size()); }
+                { auto x = ST::utf16_to_utf32(p, len, ST::substitute_invalid); mix(d, x.data(), x.size() * 4); }
+                { auto x = ST::utf16_to_latin_1(p, len, ST::substitute_invalid); mix(d, x.data(), x.size()); }
+                mixs(d, ST::string::from_utf16(p, len, ST::substitute_invalid));
+                { ST::utf16_buffer x(p, len); mixv(d, static_cast<uint64_t>(x.compare(x)) + x.size()); ST::string y; y.set(p, len, ST::substitute_invalid); mixs(d, y); }
+            } else if (kind == 8) {
+                // ---- the char32_t record (also read as wchar_t)
+                for (size_t i = 0; i < L.n32; ++i) img32[i] = static_cast<char32_t>(r.chance(1, 2) ? 0x20 + r.below(0x5f) : r.chance(1, 2) ? 0xA0 + r.below(0x2000) : 0x10000 + r.below(0x20000));
+                const unsigned mode = static_cast<unsigned>(r.below(3));
+                if (mode == 1) for (size_t i = 0; i < L.n32; ++i) img32[i] = static_cast<char32_t>(0x20 + r.below(0x5f));
+                if (mode == 2) img32[r.chance(1, 2) ? L.n32 - 1 : r.below(L.n32)] = static_cast<char32_t>(r.chance(1, 2) ? 0x110000 + r.below(0x1000) : 0xD800 + r.below(0x800));
+                memcpy(L.rec32, img32.data(), L.n32 * 4);
+                size_t a = 0, b = 0;
+                if (r.chance(2, 5)) { a = r.below(3); b = r.below(3); }
+                const char32_t *p = L.rec32 + a;
+                const size_t len = L.n32 - a - b;
+                if (reinterpret_cast<uintptr_t>(p) & 7) ++out.ranges_not_8_aligned;
+                out.calls += 6;
+                { auto x = ST::utf32_to_utf8(p, len, ST::substitute_invalid); mix(d, x.data(), x.size()); }
+                { auto x = ST::utf32_to_utf16(p, len, ST::substitute_invalid); mix(d, x.data(), x.size() * 2); }
+                { auto x = ST::utf32_to_latin_1(p, len, ST::substitute_invalid); mix(d, x.data(), x.size()); }
+                mixs(d, ST::string::from_utf32(p, len, ST::substitute_invalid));
+                { auto x = ST::wchar_to_utf8(reinterpret_cast<const wchar_t *>(p), len, ST::substitute_invalid); mix(d, x.data(), x.size()); }
+                mixs(d, ST::string::from_wchar(reinterpret_cast<const wchar_t *>(p), len, ST::substitute_invalid));
+            } else if (kind < 11) {
+                // ---- padded fields through the stdio and iostream writers, to sinks of the thread's own, in the thread's own fill character
+                const size_t lines = 1 + r.below(6);
+                const unsigned fk = step % 97 == 13 ? 2 : static_cast<unsigned>(r.below(2));       // open_memstream / fmemopen / (rarely: it is a real file) tmpfile
+                char *mem = nullptr;
+                size_t msz = 0;
+                memset(membuf.data(), 0, membuf.size());
+                FILE *fp = fk == 0 ? open_memstream(&mem, &msz) : fk == 1 ? fmemopen(membuf.data(), membuf.size(), "w") : tmpfile();
+                std::ostringstream os;
+                if (!fp) { mixv(d, 82); continue; }
+                ++out.files[fk];
+                static const size_t runs[] = {2, 2, 3, 4, 7, 8, 9, 12, 15, 16, 17, 31, 32, 33, 63, 64, 65, 66, 100, 127, 128, 129, 150, 199, 200};
+                for (size_t ln = 0; ln < lines; ++ln) {
+                    const unsigned long v1 = static_cast<unsigned long>(r.below(100000)), v2 = static_cast<unsigned long>(r.below(1000));
+                    static const char *const words[] = {"x", "ab", "pad", "text"};
+                    const char *w = words[r.below(4)];
+                    const size_t r1 = r.pick(runs), r2 = 2 + r.below(199), r3 = r.pick(runs);
+                    char hx[32];
+                    snprintf(hx, sizeof(hx), "%lx", v1);
+                    const S fmt = pad_spec(L.style, r1, strlen(hx), false, true) + "|" + pad_spec(L.style, r2, std::to_string(v2).size(), false, false) + "|" + pad_spec(L.style == 0 ? 1 : L.style, r3, strlen(w), r.chance(1, 2), false) + "\n";
+                    ST::printf(fp, fmt.c_str(), v1, v2, w);
+                    ST::writef(os, fmt.c_str(), v1, v2, w);
+                    ++out.printf_lines;
+                    ++out.writef_lines;
+                    out.pad_runs += 6;
+                    out.longest_pad = std::max<uint64_t>(out.longest_pad, std::max(r1, std::max(r2, r3)));
+                    out.calls += 2;
+                }
+                if (fk == 2) {
+                    fflush(fp);
+                    rewind(fp);
+                    const size_t got = fread(membuf.data(), 1, membuf.size(), fp);
+                    mix(d, membuf.data(), got);
+                    mixv(d, got);
+                    fclose(fp);
+                } else {
+                    fclose(fp);
+                    if (fk == 0) { mix(d, mem, msz); mixv(d, msz); free(mem); }
+                    else { const size_t got = strnlen(membuf.data(), membuf.size()); mix(d, membuf.data(), got); mixv(d, got); }
+                }
+                const S o = os.str();
+                mix(d, o.data(), o.size());
+            } else {
+                // ---- const members of string_streams that every thread reads
+                const size_t which = r.below(3);
+                const ST::string_stream &ss = *sc.ss[which];
+                ++out.stream_reads;
+                out.calls += 4;
+                const ST::string u = ss.to_string();
+                mixs(d, u);
+                if (u.size() != sc.text[which].size() || memcmp(u.c_str(), sc.text[which].data(), u.size()) != 0) mixv(d, 83);
+                if (which != 2 || r.chance(1, 4)) { mixs(d, ss.to_string(false)); mixs(d, ss.to_string(true, ST::substitute_invalid)); }
+                mix(d, ss.raw_buffer(), std::min<size_t>(ss.size(), 4096));
+                mixv(d, ss.size());
+            }
+        }
+    } catch (const std::exception &e) {
+        out.error = std::string(typeid(e).name()) + ": " + e.what();
+    }
+    out.t1 = now_ns();
+}
+
 static void body()
 {
     vrt::require("rounds", 2);
@@ -469,6 +746,126 @@ static void body()
                                       static_cast<unsigned long long>(round), big_every, sh.nbig(), sizes.c_str(), sh.big_cbuf.size(), sh.big_u16buf.size(), sh.big_u32buf.size(), sh.big_wbuf.size()), 1);
         }
     });
+
+    // neighbours: records of several threads back to back in one arena, private sinks with different fill characters, shared
+    // const streams (see lane_program)
+    {
+        vrt::require("neighbours.rounds", 4);
+        vrt::require("neighbours.library_calls", 70000);
+        vrt::require("neighbours.ranges_not_8_byte_aligned", 5000);
+        vrt::require("neighbours.records_starting_inside_a_word_of_the_neighbour's", 20);
+        vrt::require("neighbours.records_refilled_by_a_caller_buffer_decoder", 2000);
+        vrt::require("neighbours.pointer_length_needles", 1000);
+        vrt::require("neighbours.printf_lines", 2000);
+        vrt::require("neighbours.rounds_with_3_or_more_fill_characters", 4);
+        vrt::require("neighbours.const_stream_reads", 1000);
+        vrt::require("neighbours.thread_pairs_overlapping_in_time", 10);
+        vrt::require("neighbours.dull_runs_followed_by_a_remarkable_call", 20);
+        const size_t ncases = vrt::tier_count(8, 48);
+        vrt::phase("neighbours", ncases, [&](uint64_t c, Rng &r) {
+            static const size_t tcounts[] = {4, 16, 8, 5, 12, 3, 6, 7};
+            static const size_t odd_sizes[] = {45, 61, 99, 131, 33, 259};
+            const size_t T = tcounts[c % 8];
+            const size_t steps = vrt::thorough() ? (c % 8 == 0 ? 12000 : 4000) : 1000;
+            const size_t reclen = c % 4 == 3 ? r.pick(odd_sizes) : 75, n16 = 37, n32 = 19;
+            const size_t off = r.below(8), off16 = r.below(4), off32 = r.below(2);
+            char *arena = static_cast<char *>(malloc(off + T * reclen));
+            char16_t *arena16 = static_cast<char16_t *>(malloc((off16 + T * n16) * 2));
+            char32_t *arena32 = static_cast<char32_t *>(malloc((off32 + T * n32) * 4));
+            if (!arena || !arena16 || !arena32) { fprintf(stderr, "threads harness: out of memory\n"); _exit(98); }
+            memset(arena, ' ', off + T * reclen);
+            memset(arena16, 0, (off16 + T * n16) * 2);
+            memset(arena32, 0, (off32 + T * n32) * 4);
+            std::vector<Lane> lanes(T);
+            std::vector<uint64_t> seeds(T);
+            size_t inside_word = 0;
+            std::string fills;
+            for (size_t k = 0; k < T; ++k) {
+                lanes[k] = Lane{arena + off + k * reclen, reclen, arena16 + off16 + k * n16, n16, arena32 + off32 + k * n32, n32, static_cast<unsigned>((k + c) % (sizeof(lane_fills) - 1))};
+                seeds[k] = r.next();
+                if (k > 0 && (reinterpret_cast<uintptr_t>(lanes[k].rec) & 7)) ++inside_word;
+                if (fills.find(lane_fills[lanes[k].style]) == std::string::npos) fills += lane_fills[lanes[k].style];
+            }
+            // shared const objects
+            ST::string_stream streams[3];
+            SharedConst sc;
+            {
+                const size_t sizes[3] = {40 + r.below(200), 300 + r.below(3000), scale::length(r, 80000, 65536)};
+                for (int k = 0; k < 3; ++k) {
+                    S t = k == 0 ? S() : scale::utf8_background(r, sizes[k] - 30, scale::MIXED_UTF8);
+                    while (t.size() < sizes[k]) { if (r.chance(1, 5)) ref::enc_utf8(t, 0xE9); else t += static_cast<char>('a' + r.below(26)); }
+                    if (k == 1) { for (size_t at = 0; at < t.size();) { const size_t m = std::min<size_t>(1 + r.below(40), t.size() - at); streams[k].append(t.data() + at, m); at += m; } }      // grown by many small appends
+                    else streams[k].append(t.data(), t.size());
+                    sc.ss[k] = &streams[k];
+                    sc.text[k] = t;
+                }
+            }
+            S hay_text;
+            while (hay_text.size() < 3000) hay_text += r.chance(1, 6) ? ' ' : static_cast<char>('a' + r.below(8));
+            scale::plant(hay_text, 2900, "nEEDLE tail");
+            const ST::string shared_hay = ST::string::from_validated(hay_text.data(), hay_text.size());
+            sc.hay = &shared_hay;
+            std::vector<LaneOut> conc(T), seq(T);
+            vrt::cur_printf("neighbours case=%llu threads=%zu steps/thread=%zu record=%zu bytes at +%zu\n", static_cast<unsigned long long>(c), T, steps, reclen, off);
+            {
+                std::atomic<int> ready(0);
+                std::atomic<bool> go(false);
+                std::vector<std::thread> th;
+                for (size_t k = 0; k < T; ++k)
+                    th.emplace_back([&, k] {
+                        ready.fetch_add(1);
+                        while (!go.load(std::memory_order_acquire)) std::this_thread::yield();
+                        lane_program(seeds[k], steps, lanes[k], sc, conc[k]);
+                    });
+                while (ready.load() < static_cast<int>(T)) std::this_thread::yield();
+                go.store(true, std::memory_order_release);
+                for (auto &t : th) t.join();
+            }
+            for (size_t k = 0; k < T; ++k) lane_program(seeds[k], steps, lanes[k], sc, seq[k]);
+            for (int k = 0; k < 3; ++k)
+                if (streams[k].size() != sc.text[k].size() || memcmp(streams[k].raw_buffer(), sc.text[k].data(), sc.text[k].size()) != 0)
+                    vrt::violation("C20:shared-object-changed", sfmt("shared const string_stream #%d (%zu bytes) after the neighbours round: size %zu", k, sc.text[k].size(), streams[k].size()));
+            if (shared_hay.size() != hay_text.size() || memcmp(shared_hay.c_str(), hay_text.data(), hay_text.size() + 1) != 0)
+                vrt::violation("C20:shared-object-changed", "shared haystack after the neighbours round");
+            uint64_t pairs = 0;
+            for (size_t k = 0; k < T; ++k) {
+                const LaneOut &o = conc[k];
+                vrt::evals(o.calls);
+                vrt::count("neighbours.steps", o.steps);
+                vrt::count("neighbours.library_calls", o.calls);
+                vrt::count("neighbours.ranges_not_8_byte_aligned", o.ranges_not_8_aligned);
+                vrt::count("neighbours.records_refilled_by_a_caller_buffer_decoder", o.refills_by_library);
+                vrt::count("neighbours.pointer_length_needles", o.needles);
+                vrt::count("neighbours.const_char_pointer_calls", o.cstr_calls);
+                vrt::count("neighbours.printf_lines", o.printf_lines);
+                vrt::count("neighbours.writef_lines", o.writef_lines);
+                vrt::count("neighbours.padding_runs", o.pad_runs);
+                vrt::count("neighbours.sinks.open_memstream", o.files[0]);
+                vrt::count("neighbours.sinks.fmemopen", o.files[1]);
+                vrt::count("neighbours.sinks.tmpfile", o.files[2]);
+                vrt::count("neighbours.const_stream_reads", o.stream_reads);
+                vrt::count("neighbours.dull_runs_followed_by_a_remarkable_call", o.boring_runs);
+                if (o.longest_pad >= 200) vrt::count("neighbours.threads_with_a_padding_run_of_200");
+                for (size_t m = k + 1; m < T; ++m) if (conc[k].t0 < conc[m].t1 && conc[m].t0 < conc[k].t1) ++pairs;
+                if (!conc[k].error.empty() || !seq[k].error.empty())
+                    vrt::violation("C20:exception-in-thread-program", sfmt("neighbours case %llu thread %zu: concurrent '%s' sequential '%s'", static_cast<unsigned long long>(c), k, conc[k].error.c_str(), seq[k].error.c_str()));
+                else if (conc[k].digest != seq[k].digest || conc[k].calls != seq[k].calls)
+                    vrt::violation("C20:thread-result-differs-from-sequential-run", sfmt("neighbours case %llu thread %zu of %zu (fill character '%c'): digest %016llx concurrently, %016llx alone (%llu library calls)", static_cast<unsigned long long>(c), k, T,
+                                                                                      lane_fills[lanes[k].style], static_cast<unsigned long long>(conc[k].digest), static_cast<unsigned long long>(seq[k].digest), static_cast<unsigned long long>(conc[k].calls)));
+            }
+            vrt::count("neighbours.rounds");
+            vrt::count("neighbours.threads", T);
+            vrt::count("neighbours.records_starting_inside_a_word_of_the_neighbour's", inside_word);
+            vrt::count("neighbours.thread_pairs_overlapping_in_time", pairs);
+            if (fills.size() >= 3) vrt::count("neighbours.rounds_with_3_or_more_fill_characters");
+            vrt::distinct(vrt::fnv_u64(seeds[0], vrt::fnv_u64(T, 163)));
+            vrt::sample("neighbours", sfmt("case %llu: %zu threads x %zu steps, each on its own %zu-byte record (byte arena starts at +%zu: %zu records start inside an 8-byte word of their neighbour's), its own 37-unit char16_t and 19-unit char32_t record, its own stdio / iostream sinks with fill characters \"%s\", and three shared const string_streams of %zu / %zu / %zu bytes",
+                                           static_cast<unsigned long long>(c), T, steps, reclen, off, inside_word, fills.c_str(), sc.text[0].size(), sc.text[1].size(), sc.text[2].size()), 2);
+            free(arena);
+            free(arena16);
+            free(arena32);
+        });
+    }
 }
 
 VRT_MAIN(body)
